@@ -70,7 +70,7 @@ CLAIMED = {
   level="other",
   technique="static analysis: abstract interpretation of go/ssa (linear constraints, exact fixed-width wrap-around) of every encoder with per-call-string narrowing obligations and an error-discipline rule",
   text="Decides two structural clauses for every value at once: NARROW - every fixed-width operation in the universe of the 15 packet Marshal methods and of every helper encoder (each analysed as a root with an unconstrained receiver) that can lose information (conversion to a narrower integer, wrapping fixed-width arithmetic, low-bit mask) is shown not to lose any on a path that returns a nil error: the operand is entailed to fit at the operation, or it is a byte extraction whose dropped bits are emitted by a sibling conversion, or its pre-operation value (ghost) is entailed to fit at every success return (a later guard rejected the rest); ERR - in every function of that universe, at each return with a nil error the error of every call it made is entailed nil, so no encoder error is dropped and a packet-level success implies success of every helper. 14 sites where a bounded field is deliberately cut to its width are open findings F15a-n. Level other: float-derived values (REMB mantissa) and OR-overlap of bit fields are not covered, and 'accepted exactly at the limit' is not decided.",
-  note="Trusted: go/ssa, checker/num, checker/effects (purity of opaque helpers, determinism of size functions), frozen tables c08SignedWire (1 entry) and c08Triaged (6 entries, each with a reason and required to match a site). Size-domain assumption as in C05.",
+  note="Trusted: go/ssa, checker/num, checker/effects (purity of opaque helpers, determinism of size functions), frozen tables c08SignedWire (1 entry) and c08Triaged (2 entries keyed by root and function, each with a reason and required to match an undecided site); mask sites carry semantic keys (owner function, field, width). Size-domain assumption as in C05.",
   design="DESIGN.md §2 C08"),
  "C18": dict(
   level="other",
